@@ -7,6 +7,7 @@
    quantify over EVERY legal choice sequence `trace`). *)
 From Coq Require Import ZArith List Bool Arith Permutation.
 From CTM Require Import Base.Sx Base.SortX Model.Tree Model.Selection Proofs.SelectionP.
+From CTM Require Import Model.SelectionK Proofs.SelectionKP Proofs.SelectionKSafeP.   (* every genes_at_a_time: section at the end *)
 Import ListNotations.
 Open Scope nat_scope.
 
@@ -216,3 +217,214 @@ Example ex_thin :
   let rm := {| rm_genes := [10; 11; 12; 13; 14]%Z; rm_pairs := [((0, 1)%Z, ([1; 2], [3; 4]))] |} in
   (keep_idx rm [13; 11; 99]%Z, rm_pairs (thin_genes rm [13; 11; 99]%Z)) = ([1; 3], [((0, 1)%Z, ([0], [1]))]).
 Proof. vm_compute. reflexivity. Qed.
+
+(* ====================================================================================================
+   EVERY genes_at_a_time = k >= 1 (Model/SelectionK.v; the theorems above are the case k = 1).
+   One iteration of `while True` = update of been_filled / utility (the list sorted_utility_idx is
+   re-sorted - and then holds every gene again, chosen ones included - only if a slot was newly
+   filled), the two `break`s, then k pops of the LAST element of the list with nothing recomputed in
+   between.  `popk`/`stepk`/`runk`/`replayk` take the genes popped, grouped per iteration, as input;
+   a pop is legal iff the gene is a member of the list of maximal utility among the members.
+   Outcomes: KDone (break), KRaise KEmpty (IndexError: pop from empty list), KRaise (KTwice g)
+   (RuntimeError: chose gene g twice).
+   ==================================================================================================== *)
+
+(* k = 1 is exactly the model of Selection.v: from any state satisfying the loop invariant (JK = J
+   without "every chosen gene marks a slot") with a list holding every unchosen gene (PI), the
+   batched loop fed with singleton batches accepts exactly the choice sequences `run` accepts, with
+   the same final state ... *)
+Theorem c12_batch_one_is_step : forall n_genes pairs marks n trace st pool i,
+  JK n_genes pairs marks n st -> PI n_genes st pool ->
+  kres_opt (runk n_genes pairs marks n 1 st pool (map (fun g => [g]) trace) i) = run n_genes pairs marks n st trace.
+Proof. exact batch_one_is_run. Qed.
+Print Assumptions c12_batch_one_is_step.
+
+(* ... the state and list at the entry of `while True` satisfy both ... *)
+Theorem c12_batch_initially : forall n_genes pairs marks n,
+  JK n_genes pairs marks n (start n_genes pairs marks n) /\
+  PI n_genes (start n_genes pairs marks n) (pool0 n_genes pairs marks n).
+Proof. intros. split; [apply JK_start | apply PI_pool0]. Qed.
+Print Assumptions c12_batch_initially.
+
+(* ... and with k = 1 neither exception can occur, whatever batches are offered *)
+Theorem c12_batch_one_never_raises : forall n_genes pairs marks n trace st pool i e,
+  JK n_genes pairs marks n st -> PI n_genes st pool ->
+  runk n_genes pairs marks n 1 st pool trace i <> KRaise e.
+Proof. exact batch_one_never_raises. Qed.
+Print Assumptions c12_batch_one_never_raises.
+
+(* every k: a completed run returns a duplicate-free list of genes of the thinned array (= reference
+   genes present in the query) *)
+Theorem c12_batch_no_duplicates : forall n_genes pairs marks n k prefix batches st,
+  replayk n_genes pairs marks n k prefix batches = KDone st ->
+  NoDup (chosen st) /\ forall g, In g (chosen st) -> g < n_genes.
+Proof. exact batch_no_duplicates. Qed.
+Print Assumptions c12_batch_no_duplicates.
+
+(* every k: coverage on termination.  Batching cannot stop early: the `break`s are evaluated on the
+   freshly updated flags, and a slot is flagged only under one of the three filling conditions *)
+Theorem c12_batch_coverage : forall n_genes pairs marks n k prefix batches st,
+  no_gene_both_ways marks ->
+  replayk n_genes pairs marks n k prefix batches = KDone st ->
+  forall p, In p pairs ->
+    Nat.min (2 * n) (covered marks (genes n_genes) p) <= covered marks (chosen st) p.
+Proof. exact batch_coverage. Qed.
+Print Assumptions c12_batch_coverage.
+
+(* every k: the executable statement the harness evaluates on the lists returned with
+   genes_at_a_time > 1 (spec_c12 without its "marks a slot of the parent" clause) *)
+Theorem c12_batch_spec_holds : forall n_genes pairs marks n k prefix batches st,
+  no_gene_both_ways marks ->
+  replayk n_genes pairs marks n k prefix batches = KDone st ->
+  spec_c12_batch n_genes pairs marks n (chosen st) = true.
+Proof. exact spec_batch_holds. Qed.
+Print Assumptions c12_batch_spec_holds.
+
+(* every k: legality of the trace.  A batch has exactly k genes, appended in order, pairwise
+   distinct; each is a gene of the thinned array that was unchosen when the batch was formed, and no
+   gene unchosen then and not popped earlier in the batch had a larger utility - utility = the
+   array when the batch was formed (st1, after this iteration's update); ties are the input *)
+Theorem c12_batch_trace_legal : forall n_genes pairs marks n k st pool batch st' pool',
+  JK n_genes pairs marks n st -> PI n_genes st pool ->
+  stepk n_genes pairs marks n k st pool batch = SNext st' pool' ->
+  let st1 := update_filled n_genes pairs marks n st in
+  length batch = k /\ chosen st' = chosen st ++ batch /\ NoDup batch /\
+  forall b1 g b2, batch = b1 ++ g :: b2 ->
+    g < n_genes /\ ~ In g (chosen st) /\
+    forall h, h < n_genes -> ~ In h (chosen st) -> ~ In h b1 -> (utility st1 h <= utility st1 g)%Z.
+Proof. exact batch_trace_legal. Qed.
+Print Assumptions c12_batch_trace_legal.
+
+(* the invariants are preserved by every batch *)
+Theorem c12_batch_invariant_preserved : forall n_genes pairs marks n k st pool b st' pool',
+  JK n_genes pairs marks n st -> PI n_genes st pool ->
+  stepk n_genes pairs marks n k st pool b = SNext st' pool' ->
+  JK n_genes pairs marks n st' /\ PI n_genes st' pool'.
+Proof. intros n_genes pairs marks n k. exact (stepk_inv n_genes pairs marks n k). Qed.
+Print Assumptions c12_batch_invariant_preserved.
+
+(* "reference marker of a pair of the parent": what survives is the FIRST gene of every batch (it has
+   positive utility: it marks a slot of the parent that is not yet filled) ... *)
+Theorem c12_batch_head_is_marker : forall n_genes pairs marks n k st pool g b st' pool',
+  JK n_genes pairs marks n st -> PI n_genes st pool ->
+  stepk n_genes pairs marks n k st pool (g :: b) = SNext st' pool' ->
+  exists s, In s (slots pairs) /\ marks g s = true /\ filled (update_filled n_genes pairs marks n st) s = false.
+Proof. intros n_genes pairs marks n k. exact (batch_head_is_marker n_genes pairs marks n k). Qed.
+Print Assumptions c12_batch_head_is_marker.
+
+(* ... the clause itself is REFUTED for k = 2 (finding): one pair with up-markers 0,1,2 and no
+   down-marker, gene 3 marks nothing, n = 2.  Batch [2;1], then - the pair is not filled, 2 < 3 =
+   census and 2 < 2n - batch [0;3]: gene 3, of utility 0, is popped because the batch must have two
+   genes.  select_marker_genes_v2(..., n_per_utility=2, genes_at_a_time=2) returns
+   ['g2','g1','g0','g3'] on this table.  spec_c12 is false, spec_c12_batch true on the result *)
+Theorem c12_batch_in_query_and_marker_refuted :
+  exists n_genes pairs pd n k prefix batches sel g,
+    both_ways_free pd = true /\
+    kres_chosen (replayk n_genes pairs (marks_of pd) n k prefix batches) = Some sel /\
+    In g sel /\ existsb (fun s => marks_of pd g s) (slots pairs) = false /\
+    spec_c12 n_genes pairs (marks_of pd) n sel = false /\
+    spec_c12_batch n_genes pairs (marks_of pd) n sel = true.
+Proof.
+  exists 4, [0], [([], [0; 1; 2])], 2, 2, [], [[2; 1]; [0; 3]], [2; 1; 0; 3], 3.
+  vm_compute. repeat split; auto.
+Qed.
+Print Assumptions c12_batch_in_query_and_marker_refuted.
+
+(* "a run returns" is REFUTED for k >= 2 (finding): the same table without gene 3 - the second batch
+   pops gene 0 and then finds the list empty (no slot was newly filled, so it was not re-sorted):
+   IndexError: pop from empty list ... *)
+Theorem c12_batch_returns_refuted_empty_list :
+  exists n_genes pairs pd n k prefix batches,
+    both_ways_free pd = true /\
+    replayk n_genes pairs (marks_of pd) n k prefix batches = KRaise KEmpty.
+Proof.
+  exists 3, [0], [([], [0; 1; 2])], 2, 2, [], [[2; 1]; [0]]. vm_compute. split; reflexivity.
+Qed.
+Print Assumptions c12_batch_returns_refuted_empty_list.
+
+(* ... and when the list HAS been re-sorted (it then holds the chosen genes again) the pop after the
+   last unchosen gene returns a chosen one: RuntimeError "chose gene twice".  Three leaves a, b, c;
+   pair a|b has up-markers {0,1,2}, a|c up-markers {3,4}, b|c none; n = 2, k = 2: 3 and 4 are taken by
+   the desperate phase, the first update fills a|c (re-sort), batches [2;1] and [0;4].
+   select_marker_genes_v2(..., n_per_utility=2, genes_at_a_time=2) raises "chose gene 4 twice" *)
+Theorem c12_batch_returns_refuted_chosen_twice :
+  exists n_genes pairs pd n k prefix batches g,
+    both_ways_free pd = true /\
+    replayk n_genes pairs (marks_of pd) n k prefix batches = KRaise (KTwice g).
+Proof.
+  exists 5, [0; 1; 2], [([], [0; 1; 2]); ([], [3; 4]); ([], [])], 2, 2, [3; 4], [[2; 1]; [0; 4]], 4.
+  vm_compute. split; reflexivity.
+Qed.
+Print Assumptions c12_batch_returns_refuted_chosen_twice.
+
+(* exactly when: a batch cannot raise while at least k genes of the thinned array are unchosen ... *)
+Theorem c12_batch_no_raise_when_enough_genes : forall n_genes pairs marks n k st pool batch e,
+  JK n_genes pairs marks n st -> PI n_genes st pool -> k <= n_genes - length (chosen st) ->
+  stepk n_genes pairs marks n k st pool batch <> SRaise e.
+Proof. exact batch_no_raise_when_enough_genes. Qed.
+Print Assumptions c12_batch_no_raise_when_enough_genes.
+
+(* ... and can only complete if there were: with fewer than k unchosen genes left and the loop not
+   finished, EVERY tie order ends in one of the two exceptions *)
+Theorem c12_batch_completes_only_with_enough_genes : forall n_genes pairs marks n k st pool batch st' pool',
+  JK n_genes pairs marks n st -> PI n_genes st pool ->
+  stepk n_genes pairs marks n k st pool batch = SNext st' pool' ->
+  k <= n_genes - length (chosen st).
+Proof. exact batch_completes_only_with_enough_genes. Qed.
+Print Assumptions c12_batch_completes_only_with_enough_genes.
+
+(* termination for every k >= 1: the fuelled deterministic instance (first member of maximal utility,
+   k times per pass) never runs out of fuel n_genes + 1; it ends in `break` or in one of the two
+   exceptions, and its outcome is the outcome of a legal run *)
+Theorem c12_batch_terminates : forall n_genes pairs marks n k,
+  1 <= k ->
+  exists trace,
+    match greedyk n_genes pairs marks n k (S n_genes) (start n_genes pairs marks n) (pool0 n_genes pairs marks n) with
+    | GDone st => replayk n_genes pairs marks n k (chosen (start n_genes pairs marks n)) trace = KDone st
+    | GRaise e => replayk n_genes pairs marks n k (chosen (start n_genes pairs marks n)) trace = KRaise e
+    | GOutOfFuel => False
+    end.
+Proof. exact batch_terminates. Qed.
+Print Assumptions c12_batch_terminates.
+
+(* every completed run chooses exactly k genes per pass and at most n_genes in all:
+   k * (number of batches) <= n_genes *)
+Theorem c12_batch_iterations_bounded : forall n_genes pairs marks n k trace st pool i st',
+  JK n_genes pairs marks n st -> PI n_genes st pool ->
+  runk n_genes pairs marks n k st pool trace i = KDone st' ->
+  length (chosen st') = length (chosen st) + k * length trace /\ length (chosen st') <= n_genes.
+Proof. intros n_genes pairs marks n k. exact (batch_iterations_bounded n_genes pairs marks n k). Qed.
+Print Assumptions c12_batch_iterations_bounded.
+
+(* ---------------- non-vacuity for k > 1 ---------------- *)
+(* the table of DESIGN B.3 (ex_pd above), n = 1, k = 2: one batch [2;0] and the loop stops; n = 2:
+   k = 2 takes [2;0] then [1;3] (or [3;1]: a tie), k = 4 takes all four in ONE batch, genes of
+   utility 2 first; [0;1;2;3] is not a batch the loop can pop (gene 1 before gene 2) *)
+Example ex_batch_k2 :
+  kres_chosen (replayk 4 [0; 1] (marks_of ex_pd) 1 2 [] [[2; 0]]) = Some [2; 0] /\
+  kres_chosen (replayk 4 [0; 1] (marks_of ex_pd) 2 2 [] [[2; 0]; [1; 3]]) = Some [2; 0; 1; 3] /\
+  kres_chosen (replayk 4 [0; 1] (marks_of ex_pd) 2 2 [] [[2; 0]; [3; 1]]) = Some [2; 0; 3; 1].
+Proof. vm_compute. repeat split; reflexivity. Qed.
+Example ex_batch_k4 :
+  kres_chosen (replayk 4 [0; 1] (marks_of ex_pd) 2 4 [] [[0; 2; 1; 3]]) = Some [0; 2; 1; 3] /\
+  replayk 4 [0; 1] (marks_of ex_pd) 2 4 [] [[0; 1; 2; 3]] = KIllegal 0 /\
+  replayk 4 [0; 1] (marks_of ex_pd) 2 3 [] [[2; 0; 3]] = KNotFinished.
+Proof. vm_compute. repeat split; reflexivity. Qed.
+(* an illegal batch (gene 1 does not have maximal utility among the members left) is refused *)
+Example ex_batch_illegal :
+  replayk 4 [0; 1] (marks_of ex_pd) 1 2 [] [[2; 1]] = KIllegal 0.
+Proof. vm_compute. reflexivity. Qed.
+(* over-coverage in one direction only (the docstring's "unnecessary over coverage"): one pair, three
+   markers each way, n = 1, k = 2: the batch [5;4] takes two DOWN markers, the pair then holds
+   2 = 2n and the loop stops without any up-marker; with k = 1 the run is [5;2] *)
+Example ex_batch_one_sided :
+  kres_chosen (replayk 6 [0] (marks_of [([3; 4; 5], [0; 1; 2])]) 1 2 [] [[5; 4]]) = Some [5; 4] /\
+  kres_chosen (replayk 6 [0] (marks_of [([3; 4; 5], [0; 1; 2])]) 1 1 [] [[5]; [2]]) = Some [5; 2].
+Proof. vm_compute. split; reflexivity. Qed.
+(* the deterministic instance on the three refutation tables *)
+Example ex_greedyk :
+  (match greedyk 4 [0] (marks_of [([], [0; 1; 2])]) 2 2 5 (start 4 [0] (marks_of [([], [0; 1; 2])]) 2)
+                 (pool0 4 [0] (marks_of [([], [0; 1; 2])]) 2) with GDone st => chosen st | _ => [] end) = [0; 1; 2; 3] /\
+  (match greedyk 3 [0] (marks_of [([], [0; 1; 2])]) 2 2 4 (start 3 [0] (marks_of [([], [0; 1; 2])]) 2)
+                 (pool0 3 [0] (marks_of [([], [0; 1; 2])]) 2) with GRaise e => Some e | _ => None end) = Some KEmpty.
+Proof. vm_compute. split; reflexivity. Qed.
